@@ -112,7 +112,7 @@ fn roundtrip_case(ctx: &mut Ctx, f: &Field, label: &str) {
     let expected = normalize(f);
     // A: foreign (marrow) field objects are accepted as a schema value
     let s0 = guarded(|| SerdeArrowSchema::from_value(std::slice::from_ref(f)).map_err(|e| e.to_string()));
-    let s0 = match s0 { Out::Ok(s) => s, Out::Err(e) => { ctx.count(&format!("{}:rejected", label)); let idx = ctx.add_case(format!("{{| c_tree := JArr []; c_expect := None; c_impl_ok := false; c_model := false; c_check_print := false |}}"), json!({"field": format!("{:?}", f), "err": e}), true); ctx.fail(idx, "valid_schema_rejected", format!("from_value refuses a valid field: {}", e)); return; } Out::Panic(p) => { let idx = ctx.add_case(format!("{{| c_tree := JArr []; c_expect := None; c_impl_ok := false; c_model := false; c_check_print := false |}}"), json!({"field": format!("{:?}", f)}), true); ctx.fail(idx, "panic", format!("from_value panics: {}", p)); return; } };
+    let s0 = match s0 { Out::Ok(s) => s, Out::Err(e) => { ctx.count(&format!("{}:rejected", label)); let idx = ctx.add_case(format!("{{| c_tree := JArr []; c_expect := None; c_impl_ok := false; c_model := false; c_check_print := false; c_foreign := None |}}"), json!({"field": format!("{:?}", f), "err": e}), true); ctx.fail(idx, "valid_schema_rejected", format!("from_value refuses a valid field: {}", e)); return; } Out::Panic(p) => { let idx = ctx.add_case(format!("{{| c_tree := JArr []; c_expect := None; c_impl_ok := false; c_model := false; c_check_print := false; c_foreign := None |}}"), json!({"field": format!("{:?}", f)}), true); ctx.fail(idx, "panic", format!("from_value panics: {}", p)); return; } };
     ctx.count(&format!("{}:accepted", label));
     // compact form -> marrow fields
     match guarded(|| Vec::<Field>::from_value(&s0).map_err(|e| e.to_string())) {
@@ -152,7 +152,7 @@ fn roundtrip_case(ctx: &mut Ctx, f: &Field, label: &str) {
     // model
     let item = list_form.get(0).cloned().unwrap_or(Value::Null);
     let modelled = ascii_only(&item) && !text.contains("\\\\u") && yfield_coq(&expected).is_some() && !tz_needs_unicode_escape(&expected);
-    let coq = format!("{{| c_tree := {}; c_expect := {}; c_impl_ok := true; c_model := {}; c_check_print := {} |}}", jv_coq(&item), if modelled { format!("(Some {})", yfield_coq(&expected).unwrap()) } else { "None".into() }, cf::boolean(modelled), cf::boolean(modelled));
+    let coq = format!("{{| c_tree := {}; c_expect := {}; c_impl_ok := true; c_model := {}; c_check_print := {}; c_foreign := None |}}", jv_coq(&item), if modelled { format!("(Some {})", yfield_coq(&expected).unwrap()) } else { "None".into() }, cf::boolean(modelled), cf::boolean(modelled));
     let idx = ctx.add_case(coq, json!({"field": format!("{:?}", f), "json": text}), !matches!(f.data_type, DataType::Null | DataType::Boolean));
     for (c, w) in fails { ctx.fail(idx, c, w); }
 }
@@ -167,7 +167,7 @@ fn value_case(ctx: &mut Ctx, tree: &Value, label: &str) {
     ctx.count(&format!("{}:{}", label, r.class()));
     let ok = matches!(r, Out::Ok(_));
     let expect = match &r { Out::Ok(s) => match guarded(|| Vec::<Field>::from_value(s).map_err(|e| e.to_string())) { Out::Ok(fs) if fs.len() == 1 && ascii_only(tree) && !tz_needs_unicode_escape(&fs[0]) => yfield_coq(&fs[0]), _ => None }, _ => None };
-    let coq = format!("{{| c_tree := {}; c_expect := {}; c_impl_ok := {}; c_model := {}; c_check_print := false |}}", jv_coq(tree), match (&expect, ok) { (Some(e), true) => format!("(Some {})", e), _ => "None".into() }, cf::boolean(ok), cf::boolean(ascii_only(tree)));
+    let coq = format!("{{| c_tree := {}; c_expect := {}; c_impl_ok := {}; c_model := {}; c_check_print := false; c_foreign := None |}}", jv_coq(tree), match (&expect, ok) { (Some(e), true) => format!("(Some {})", e), _ => "None".into() }, cf::boolean(ok), cf::boolean(ascii_only(tree)));
     let idx = ctx.add_case(coq, json!({"value": tree.to_string(), "impl": match &r { Out::Ok(s) => format!("Ok({:?})", s), Out::Err(e) => format!("Err({})", e), Out::Panic(p) => format!("Panic({})", p) }}), true);
     if let Out::Panic(p) = &r { ctx.fail(idx, "panic", format!("from_value panics: {}", p)); }
     if !ascii_only(tree) { ctx.count("value_not_model_compared:non_ascii"); }
@@ -192,10 +192,56 @@ fn mutate(rng: &mut Rng, v: &Value) -> Value {
     v
 }
 
+/// replace one node of the field tree (at a random depth) by something validate_field refuses
+fn spoil(rng: &mut Rng, f: &Field, depth: usize) -> (Field, String) {
+    use DataType as T;
+    let kids: usize = match &f.data_type { T::List(_) | T::LargeList(_) | T::FixedSizeList(..) => 1, T::Struct(fs) => fs.len(), T::Union(fs, _) => fs.len(), T::Map(e, _) => match &e.data_type { T::Struct(kv) => kv.len(), _ => 0 }, _ => 0 };
+    if kids > 0 && rng.chance(2, 3) {
+        let i = rng.below(kids);
+        let mut g = f.clone();
+        let what;
+        g.data_type = match &f.data_type {
+            T::List(c) => { let (c2, w) = spoil(rng, c, depth + 1); what = w; T::List(Box::new(c2)) }
+            T::LargeList(c) => { let (c2, w) = spoil(rng, c, depth + 1); what = w; T::LargeList(Box::new(c2)) }
+            T::FixedSizeList(c, n) => { let (c2, w) = spoil(rng, c, depth + 1); what = w; T::FixedSizeList(Box::new(c2), *n) }
+            T::Struct(fs) => { let mut v = fs.clone(); let (c2, w) = spoil(rng, &fs[i], depth + 1); what = w; v[i] = c2; T::Struct(v) }
+            T::Union(fs, m) => { let mut v = fs.clone(); let (c2, w) = spoil(rng, &fs[i].1, depth + 1); what = w; v[i].1 = c2; T::Union(v, *m) }
+            T::Map(e, srt) => { let T::Struct(kv) = &e.data_type else { unreachable!() }; let mut v = kv.clone(); let (c2, w) = spoil(rng, &kv[i], depth + 2); what = format!("below_map:{}", w); v[i] = c2; let mut e2 = (**e).clone(); e2.data_type = T::Struct(v); T::Map(Box::new(e2), *srt) }
+            other => { what = "none".into(); other.clone() }
+        };
+        return (g, what);
+    }
+    let mut g = f.clone();
+    let tag = |w: &str| format!("{}@depth{}", w, depth.min(3));
+    let what = match rng.below(9) {
+        0 => { g.data_type = T::Time32(*rng.pick(&UNITS[2..])); tag("time32_unit") }
+        1 => { g.data_type = T::Time64(*rng.pick(&UNITS[..2])); tag("time64_unit") }
+        2 => { g.data_type = T::FixedSizeBinary(*rng.pick(&[-1, -7, i32::MIN])); tag("negative_fixed_binary") }
+        3 => { g.data_type = T::FixedSizeList(Box::new(mk("element", T::Int8, true)), *rng.pick(&[-1, -3, i32::MIN])); tag("negative_fixed_list") }
+        4 => { g.data_type = if rng.chance(1, 2) { T::Dictionary(Box::new(T::Utf8), Box::new(T::Utf8)) } else { T::Dictionary(Box::new(T::Int8), Box::new(T::Int32)) }; tag("dictionary_types") }
+        5 => { let n = *rng.pick(&[0usize, 1, 3]); g.data_type = T::Map(Box::new(mk("entries", T::Struct((0..n).map(|i| mk(&format!("f{}", i), T::Utf8, false)).collect()), false)), false); tag("map_entry_arity") }
+        6 => { g.data_type = T::Map(Box::new(mk("entries", T::Int32, false)), false); tag("map_entry_not_struct") }
+        7 => { g.metadata.insert("SERDE_ARROW:strategy".into(), (*rng.pick(&["Bogus", "", "mapasstruct", "UtcStrAsDate64"])).to_string()); tag("unknown_strategy") }
+        _ => { let s = match &g.data_type { T::Null => *rng.pick(&["MapAsStruct", "TupleAsStruct"]), T::Struct(_) => *rng.pick(&["InconsistentTypes", "UnknownVariant"]), _ => *rng.pick(&["MapAsStruct", "TupleAsStruct", "InconsistentTypes", "UnknownVariant"]) };
+               g.metadata.insert("SERDE_ARROW:strategy".into(), s.to_string()); tag("misplaced_strategy") }
+    };
+    (g, what)
+}
+
+fn foreign_case(ctx: &mut Ctx, f: &Field, what: &str) {
+    let Some(yf) = yfield_coq(f) else { ctx.count("foreign:not_expressible"); return };
+    let r = guarded(|| SerdeArrowSchema::from_value(std::slice::from_ref(f)).map(|_| ()).map_err(|e| e.to_string()));
+    ctx.count(&format!("foreign:{}:{}", what.split('@').next().unwrap_or(what), r.class()));
+    if let Some(d) = what.split('@').nth(1) { ctx.count(&format!("foreign_spoiled_at:{}", d)); }
+    let coq = format!("{{| c_tree := JArr []; c_expect := None; c_impl_ok := {}; c_model := false; c_check_print := false; c_foreign := Some {} |}}", cf::boolean(matches!(r, Out::Ok(_))), yf);
+    let idx = ctx.add_case(coq, json!({"kind": "foreign field object", "spoiled": what, "field": format!("{:?}", f), "impl": match &r { Out::Ok(_) => "accepted".to_string(), Out::Err(e) => format!("rejected: {}", e), Out::Panic(p) => format!("panic: {}", p) }}), true);
+    if let Out::Panic(p) = &r { ctx.fail(idx, "panic", format!("from_value panics: {}", p)); }
+}
+
 pub fn run(ctx: &mut Ctx) {
     ctx.runner = "RunC09".into();
     ctx.shard_size = 300;
-    ctx.rule = "generated fields over every supported data type and parameter value (4 time units, time zones incl. quotes, backslashes, control and non-ASCII characters, precision 0..255 and scale -128..127, fixed sizes incl. 0 and i32::MAX, all 16 dictionary key/value combinations, map entries with arbitrary names), nesting depth <= 3, names incl. empty and non-ASCII, metadata maps with and without a strategy entry: passed as foreign field objects to from_value, compact serde form read back to fields, JSON text read back, both top-level forms, arrow and arrow2 fields and back; the compact tree is read by the Coq parser model and compared with the Coq printer model (ASCII cases); a second stream mutates valid trees (missing keys, both spellings and malformed type names, wrong child counts, bad strategies, invalid parameters, duplicate strategy) and compares accept/reject and the accepted schema with the model. Non-trivial = not a bare Null/Boolean leaf; distinct by (tree, result)".into();
+    ctx.rule = "generated fields over every supported data type and parameter value (4 time units, time zones incl. quotes, backslashes, control and non-ASCII characters, precision 0..255 and scale -128..127, fixed sizes incl. 0 and i32::MAX, all 16 dictionary key/value combinations, map entries with arbitrary names), nesting depth <= 3, names incl. empty and non-ASCII, metadata maps with and without a strategy entry: passed as foreign field objects to from_value, compact serde form read back to fields, JSON text read back, both top-level forms, arrow and arrow2 fields and back; the compact tree is read by the Coq parser model and compared with the Coq printer model (ASCII cases); a second stream mutates valid trees (missing keys, both spellings and malformed type names, wrong child counts, bad strategies, invalid parameters, duplicate strategy) and compares accept/reject and the accepted schema with the model. Non-trivial = not a bare Null/Boolean leaf; distinct by (tree, result). A third stream passes foreign field objects with exactly one spoiled node at a random depth (wrong Time32/Time64 unit, negative fixed size, non-integer dictionary key / non-string value, map entries of the wrong arity or kind, unknown or misplaced strategy) and compares accept/reject with valid_y evaluated in Coq".into();
     let n = if ctx.thorough { 20000 } else { 1500 };
     let mut trees: Vec<Value> = vec![];
     for _ in 0..n {
@@ -213,6 +259,15 @@ pub fn run(ctx: &mut Ctx) {
         let idx = ctx.cases.len();
         value_case(ctx, &json!({"name": "x", "data_type": b}), "spelling");
         if ra.is_none() || ra != rb { ctx.fail(idx, "spellings_differ", format!("{} and {} do not denote the same type", a, b)); }
+    }
+    // foreign field objects with one invalid part at a random depth: accepted iff valid everywhere (valid_y)
+    let k = if ctx.thorough { 12000 } else { 1500 };
+    for _ in 0..k {
+        let mut rng = ctx.rng.fork();
+        let d = 1 + rng.below(3);
+        let f = gen_field(&mut rng, d);
+        let (g, what) = if rng.chance(1, 8) { (f.clone(), "unchanged".to_string()) } else { spoil(&mut rng, &f, 0) };
+        foreign_case(ctx, &g, &what);
     }
     // invalid / mutated stream
     let m = if ctx.thorough { 20000 } else { 1500 };
